@@ -313,3 +313,71 @@ def robots_after_verdict_rule(ctx, rule):
                       'limit) turned down still causes a /robots.txt request to its origin, and a failing one checks the item in as error again', m.loc(g.stmt))
     if sites == 0:
         raise AnalysisError('FetchRule: no site consults robots.txt')
+
+
+def hostnames_agreement_rule(ctx, rule):
+    """The span-hosts filter compares an attribute of the parsed URL with the names the URL table hands out; the table
+    fills that column in add_many.  Writer and reader must use the same attribute of the same parser, or no URL of a start
+    host with a port / brackets / credentials is ever `on a start host` (and nothing is fetched)."""
+    import ast
+    from .. import util as U
+    from ..index import dotted, walk_no_nested, AnalysisError
+    repo, ck = ctx.repo, ctx.check
+    am = repo.func('wpull.database.sqltable:BaseSQLURLTable.add_many')
+    # the insert may sit in a helper of the table class
+    for m_ in repo.cls('wpull.database.sqltable:BaseSQLURLTable').methods.values():
+        if any(U.attr_name(c) == 'execute' and len(c.args) == 2 and any(isinstance(x, ast.Name) and x.id == 'Hostname' for x in ast.walk(c.args[0]))
+               for c in U.calls(m_.node)):
+            am = m_
+    defs = U.local_defs(am.node)
+
+    def element_exprs(e, depth=0):
+        # what each element of e evaluates to (through one generator / list comprehension and single-definition locals)
+        if depth > 4:
+            return [e]
+        if isinstance(e, (ast.GeneratorExp, ast.ListComp, ast.SetComp)):
+            elt = e.elt
+            if isinstance(elt, ast.Name) and len(e.generators) == 1 and isinstance(e.generators[0].target, ast.Name) \
+                    and e.generators[0].target.id == elt.id:
+                return element_exprs(e.generators[0].iter, depth + 1)
+            return [elt]
+        if isinstance(e, ast.Name):
+            ds = defs.get(e.id, [])
+            if len(ds) == 1 and ds[0][0] is not None and ds[0][1] == 'assign':
+                return element_exprs(ds[0][0], depth + 1)
+        if isinstance(e, ast.Call) and isinstance(e.func, ast.Name) and e.func.id in ('set', 'list', 'tuple', 'sorted', 'frozenset') and len(e.args) == 1:
+            return element_exprs(e.args[0], depth + 1)
+        return [e]
+    written = []
+    for c in U.calls(am.node):
+        if U.attr_name(c) == 'execute' and len(c.args) == 2 and any(isinstance(x, ast.Name) and x.id == 'Hostname' for x in ast.walk(c.args[0])):
+            rows = c.args[1]
+            for d in ast.walk(rows):
+                if isinstance(d, ast.Dict):
+                    for k, v in zip(d.keys, d.values):
+                        if isinstance(k, ast.Constant) and k.value == 'hostname':
+                            if isinstance(v, ast.Name) and isinstance(rows, (ast.ListComp, ast.GeneratorExp)) \
+                                    and any(isinstance(g.target, ast.Name) and g.target.id == v.id for g in rows.generators):
+                                g = [g for g in rows.generators if isinstance(g.target, ast.Name) and g.target.id == v.id][0]
+                                written.extend(element_exprs(g.iter))
+                            else:
+                                written.append(v)
+    if not written:
+        raise AnalysisError('add_many: the insert into the hostnames table was not recognised')
+    wattrs = set()
+    for w in written:
+        if isinstance(w, ast.Attribute) and isinstance(w.value, ast.Call) and (dotted(w.value.func) or '').split('.')[-1] in ('parse', 'parse_url_or_log') \
+                and 'URLInfo' in (dotted(w.value.func) or 'URLInfo'):
+            wattrs.add(w.attr)
+        else:
+            wattrs.add('<%s>' % ast.unparse(w)[:40])
+    sh = repo.cls('wpull.urlfilter:SpanHostsFilter').methods.get('test')
+    rattrs = set()
+    for n in walk_no_nested(sh.node):
+        if isinstance(n, ast.Compare) and len(n.ops) == 1 and isinstance(n.ops[0], (ast.In, ast.NotIn)) and U.is_self_attr(n.comparators[0], '_hostnames'):
+            rattrs.add(n.left.attr if isinstance(n.left, ast.Attribute) else '<%s>' % ast.unparse(n.left)[:40])
+    if not rattrs:
+        raise AnalysisError('SpanHostsFilter.test: membership test on the host names not recognised')
+    ck.expect(len(wattrs) == 1 and wattrs == rattrs, rule, am.qual, 'hostnames column <- URLInfo.parse(url).%s, the attribute SpanHostsFilter looks up' % '/'.join(sorted(rattrs)),
+              'the table stores %s while the span-hosts filter looks up url_info.%s: for start URLs with a port, an IPv6 literal or credentials '
+              'the two never agree, every URL counts as off-host and nothing is fetched' % (sorted(wattrs), '/'.join(sorted(rattrs))), am.loc())
